@@ -21,6 +21,13 @@ PAIRS = [("PG", "PG"), ("PG", "PH"), ("PH", "PG"), ("PH", "PH")]
 REQUIRED_FUNCS = ("inter_convexpolygon_convexpolygon", "inter_convexpolygon_convexPolyhedron",
                   "inter_convexpolyhedron_convexpolyhedron", "get_segment_convexpolygon_intersection_point_set",
                   "ConvexPolygon._check_and_sort_points", "ConvexPolyhedron._euler_check")
+_inner = C.InnerShadow(lambda ka, kb: ka in ("PG", "PH") and kb in ("PG", "PH"), cap=3, p=0.5)
+
+
+def setup():
+    _inner.install()
+
+
 _diag = {"measure_checks": 0, "rotated_cases": 0, "rotated_admitted": 0}
 
 
@@ -82,6 +89,7 @@ def judge(case):
     G = load()
     a, b = case["a"], case["b"]
     fm = bool(case.get("float"))
+    _inner.new_case()
     if fm:
         K.reset(tol=1e-9)
         _diag["rotated_cases"] += 1
@@ -102,6 +110,7 @@ def judge(case):
     C.run_inter(lambda p, q: p.intersection(q), x, y, exp, "a.intersection(b)", mu, kb_)
     if mu.viol is None and res is not None and not fm:
         _measures(res, exp, mu, kb_)
+    _inner.finish(mu)
     return mu.result(outcome=C.show_short(exp, 120))
 
 
@@ -140,7 +149,9 @@ def _measures(res, exp, mu, kb_):
 
 
 def worker_report():
-    return dict(_diag)
+    d = dict(_diag)
+    d.update(_inner.report())
+    return d
 
 
 describe = C.describe_pair
